@@ -640,6 +640,7 @@ def eval_multi(case: dict) -> dict:
     twin = twin_of(case, None) if case["nrow"] != HUGE else None
     colidx = {j: j for j in range(K)}
     later_paginated = False
+    paginated_sections = 0
     for si, (sb, sc) in enumerate(zip(b.sections, case["sections"])):
         add = adder(si)
         tagl = "ABCDE"[si]
@@ -654,9 +655,15 @@ def eval_multi(case: dict) -> dict:
         cnt["cells-checked"] = cnt.get("cells-checked", 0) + len(cells)
         if si > 0 and sum(1 for p in pages if p) > 1:
             later_paginated = True
+        if sum(1 for p in pages if p) > 1:
+            paginated_sections = paginated_sections + 1
     cnt["multi-section-documents"] = 1
     if later_paginated:
         cnt["multi-section-later-section-paginated"] = 1
+    if paginated_sections == len(case["sections"]):
+        cnt["multi-section-every-section-paginated"] = 1
+    if paginated_sections >= 2 and len({a for sc in case["sections"] for a, sa in (sc.get("attrs") or {}).items() if sa[0] == "matrix"}) >= 2:
+        cnt["multi-section-matrices-on-different-attributes-all-paginated"] = 1
     return {"viol": viol, "nt": True, "cnt": cnt, "sample": None}
 
 
@@ -804,7 +811,8 @@ def plan(run):
                 "position pair for tables of <= 9 rows, first alphabet for 16 and 40 rows, plus all pairs of attributes x shapes on a reduced layout set. Every case is evaluated by the direct rule and against its huge-nrow twin. "
                 "Plus: tables with exactly ONE displayed column (1 data column, alone or with page_by / subline_by columns removed) x {nrow x 1 matrix, "
                 "3 x 1 pattern, tuple} and tuple-form attributes on the 3-column tables; 2-/3-section documents whose section bodies differ in one "
-                "attribute ({scalar, other scalar}, {scalar, matrix}, {matrix, scalar}, {unset, scalar}, {scalar, unset}), later sections paginated, "
+                "attribute ({scalar, other scalar}, {scalar, matrix}, {matrix, scalar}, {unset, scalar}, {scalar, unset}, {unset, matrix}; matrix on attribute X "
+                "then matrix on another attribute Y), section sizes such that only the later section / every section spans >= 2 pages, "
                 "every cell judged against its own section's body. "
                 "non-trivial = >= 2 pages, or a column removed, or a non-scalar shape, or several sections; distinct = distinct case")
     run.assumptions = [
@@ -890,19 +898,32 @@ def plan(run):
 
     # multi-section documents whose bodies differ in one attribute: every cell against its OWN section's body
     multi = []
-    for attr in ALL_ATTRS:
+    for ai, attr in enumerate(ALL_ATTRS):
+        other = ALL_ATTRS[(ai + 7) % len(ALL_ATTRS)]  # a different attribute for the cross pairs
         two = [[["scalar", 0], ["scalar", 0, 1]], [["scalar", 0], ["matrix", 0]], [["matrix", 0], ["scalar", 0, 1]],
-               [None, ["scalar", 0]], [["scalar", 0], None]]
+               [None, ["scalar", 0]], [["scalar", 0], None], [None, ["matrix", 0]]]
         if not quick:
             two += [[["row", 0], ["matrix", 0, 1]], [["matrix", 0], ["matrix", 0, 1]], [["pattern3", 0], ["row", 0, 1]]]
+        # (2, 4): only the later section spans pages; (4, 4) / (4, 9): EVERY section spans >= 2 pages at the small nrow values
         for sa, sb_ in two:
-            for sizes in ((2, 4),) if quick else ((2, 4), (4, 9)):
+            for sizes in ((2, 4), (4, 4)) if quick else ((2, 4), (4, 4), (4, 9)):
                 for nrow in (2, HUGE) if quick else (1, 2, 3, HUGE):
+                    if quick and nrow == HUGE and sizes != (2, 4):
+                        continue  # without page breaks the section sizes make no difference
                     multi.append({"sections": [{"n": sizes[0], **({"attrs": {attr: sa}} if sa else {})},
                                                {"n": sizes[1], **({"attrs": {attr: sb_}} if sb_ else {})}], "nrow": nrow})
-        for nrow in (2,) if quick else (1, 2, HUGE):
-            multi.append({"sections": [{"n": 2, "attrs": {attr: ["scalar", 0]}}, {"n": 4, "attrs": {attr: ["matrix", 0]}},
-                                       {"n": 3, "attrs": {attr: ["scalar", 0, 1]}}], "nrow": nrow})
+        # section 1: matrix on attribute X, section 2: matrix on another attribute Y (and the mirror image), all sections paginated
+        for sizes in ((4, 4),) if quick else ((4, 4), (2, 4), (4, 9)):
+            for nrow in (2,) if quick else (1, 2, 3, HUGE):
+                multi.append({"sections": [{"n": sizes[0], "attrs": {attr: ["matrix", 0]}},
+                                           {"n": sizes[1], "attrs": {other: ["matrix", 0]}}], "nrow": nrow})
+        # three sections: only the later ones paginated / all paginated
+        for s3 in ((2, 4, 3), (4, 4, 3)):
+            for nrow in (2,) if quick else (1, 2, HUGE):
+                multi.append({"sections": [{"n": s3[0], "attrs": {attr: ["scalar", 0]}}, {"n": s3[1], "attrs": {attr: ["matrix", 0]}},
+                                           {"n": s3[2], "attrs": {attr: ["scalar", 0, 1]}}], "nrow": nrow})
+                multi.append({"sections": [{"n": s3[0], "attrs": {attr: ["matrix", 0]}}, {"n": s3[1], "attrs": {other: ["scalar", 0]}},
+                                           {"n": s3[2], "attrs": {other: ["matrix", 0]}}], "nrow": nrow})
     run.layer("multi-section-bodies", "mc.props.c09:eval_case", multi, chunk=30, total=len(multi))
     if not quick:
         pairs = []
@@ -921,7 +942,8 @@ def plan(run):
         run.layer("attribute-pairs", "mc.props.c09:eval_case", pairs, chunk=40, total=len(pairs))
     for need in ("pages=1", "pages>1", "one-row-per-page", "removed-1", "removed-2", "shape-scalar", "shape-row", "shape-matrix", "shape-pattern", "shape-cols", "shape-grid", "shape-tuple",
                  "one-displayed-column-by-construction", "one-displayed-column-by-removal", "multi-section-documents",
-                 "multi-section-later-section-paginated",
+                 "multi-section-later-section-paginated", "multi-section-every-section-paginated",
+                 "multi-section-matrices-on-different-attributes-all-paginated",
                  "short-column-vector-right-of-a-removed-column",
                  "matrix-on-page-starting-off-cycle", "pattern-on-page-starting-off-cycle", "blank-null-cells-checked",
                  "blank-empty-string-cells-checked", "blank-cell-on-first-row-of-a-later-page", "blank-cell-in-last-row", "mid-page-segment", "metamorphic-pairs", "cells-checked"):
